@@ -1,5 +1,6 @@
 (** Check: line-for-line model of Tx.check (tx_check.go) over the file bytes [rd] at page size [ps]:
-    the freed map with its duplicate test, the reachable map seeded with the meta pages and the freelist run,
+    the freed map with its duplicate test, the reachable map seeded with the meta pages and the freelist run (none of
+    which may be listed as free),
     forEachPage + verifyPageReachable (out of bounds, multiple references over overflow runs, reachable-freed for
     every id of a run, invalid type), recursivelyCheckPageKeyOrderInternal + verifyKeyOrder with the running
     minimum / open maximum, the walkable test, the recursion into nested buckets, and the final sweep for
@@ -142,7 +143,10 @@ Section Chk.
   (** tx.check with pageId = 0; [flrun] = ids of the freelist page run ([] when the freelist is not persisted),
       [root] = root page of the root bucket *)
   Definition check (fuel : nat) (flrun : list N) (root : N) : option (list cerr) :=
-    let s0 : cst := (rev flrun ++ [1; 0], rev (dup_errs [] freed)) in
+    let seed := rev flrun ++ [1; 0] in
+    (* the meta pages and the pages holding the free list are in use: none of them may be listed as free *)
+    let seed_errs := flat_map (fun id => if memN id seed && memN id freed then [EReachFreed id] else []) (run 0 hwm) in
+    let s0 : cst := (seed, rev seed_errs ++ rev (dup_errs [] freed)) in
     match check_bucket fuel root s0 with
     | None => None
     | Some (reach, errs) =>
